@@ -111,12 +111,21 @@ def rule_span_collections(ctx, facts, rule):
     ctx.check({"Owned", "Shared"} <= have, rule, SPAN_COLLECTION, "-", "both SpanCollection variants are constructed", "%s" % sorted(have),
               "variants constructed: %s" % sorted(have), extra="variants")
     n = 0
+    hc_view = None
     for fn, b, s, f in cons:
         n += 1
+        if fn.path == "fastrace::collector::global_collector::GlobalCollector::handle_commands":
+            # the view with local helpers and local closures spliced in keeps the block numbers of the original body
+            if hc_view is None:
+                from .collector import Collector
+                hc_view = Collector(ctx, facts).fn
+            if hc_view is not None and b < len(hc_view.blocks) and len(hc_view.blocks[b]["stmts"]) >= len(fn.blocks[b]["stmts"]):
+                fn = hc_view
         lt, ft = root_local(fn, f["trace_id"])
         lp, fp = root_local(fn, f["parent_id"])
-        gets = [x for x in fn.calls_re(r"HashMap::<K, V, S, A>::(get_mut|get|contains_key|entry)$", cleanup=False)
-                if fn.dominates(x, b) and "ActiveCollector" in fn.term(x)["arg_tys"][0]]
+        all_gets = [x for x in fn.calls_re(r"HashMap::<K, V, S, A>::(get_mut|get|contains_key|entry)$", cleanup=False)
+                    if "ActiveCollector" in fn.term(x)["arg_tys"][0]]
+        gets = [x for x in all_gets if fn.dominates(x, b)]
         # the closest dominating lookup
         gets.sort(key=lambda x: len(fn.dominators()[x]))
         key_ok = False
@@ -125,6 +134,14 @@ def rule_span_collections(ctx, facts, rule):
             lk, fk = root_local(fn, fn.term(gets[-1])["args"][1])
             key_ok = (lk == lt and fk[-1:] == (".collect_id",))
             detail = "lookup key root _%d%s" % (lk, "".join(fk))
+        else:
+            # built first, routed afterwards (`let set = SpanCollection::..{..}; deliver(item.collect_id, set)`): the lookups reached
+            # first from the construction must all be keyed by the same item
+            nxt = [x for x in all_gets if x in fn.reach([b], avoid_blocks=[y for y in all_gets if y != x])]
+            if nxt:
+                keys = [root_local(fn, fn.term(x)["args"][1]) for x in nxt]
+                key_ok = all(lk == lt and fk[-1:] == (".collect_id",) for lk, fk in keys)
+                detail = "following lookup key roots %s" % ["_%d%s" % (lk, "".join(fk)) for lk, fk in keys]
         ok = lt == lp and ft[-1:] == (".trace_id",) and fp[-1:] == (".parent_id",) and key_ok
         ctx.check(ok, rule, fn.path, fn.loc(b),
                   "SpanCollection::%s: trace_id and parent_id come from the token item whose collect_id selected the collector" % s["rv"]["variant"],
